@@ -176,3 +176,36 @@ func H_C12_file_grouping_respects_limits() {
 		vpAssert(used[i] <= 1, "C12: a file appears in two merge groups")
 	}
 }
+
+// The per-operation file budget is a budget of the whole Merge call: with 4 one-block files
+// falling into up to two independent groups (partitions p/q) the groups together never hold more
+// than MaxFilesToMergePerOperation files.
+//
+//vp:bounds 4 one-block files with concrete small sizes, each in partition p or q, MaxFilesToMergePerOperation symbolic in 2..5, other limits far away
+func H_C12_file_budget_covers_the_whole_merge_call() {
+	b := &BloomSearchEngine{config: BloomSearchEngineConfig{MaxRowGroupRows: 1000, MaxRowGroupBytes: 1 << 20, MaxFileSize: 1 << 30, MaxFilesToMergePerOperation: nondetInt()}}
+	vpAssume(b.config.MaxFilesToMergePerOperation >= 2 && b.config.MaxFilesToMergePerOperation <= 5)
+	files := make([]fileMergeCandidate, 4)
+	for i := range files {
+		blk := DataBlockMetadata{Rows: 1, UncompressedSize: 10, RowDataSize: 10 + i, BloomFilterSize: 5, PartitionID: "p"}
+		if nondetBool() {
+			blk.PartitionID = "q"
+		}
+		md := FileMetadata{DataBlocks: []DataBlockMetadata{blk}}
+		files[i] = fileMergeCandidate{filePointer: []byte{byte(i)}, metadata: md, statistics: b.calculateFileStatistics(md)}
+	}
+	groups := b.identifyFileMergeGroups(files)
+	total := 0
+	used := make([]int, 4)
+	for _, g := range groups {
+		vpAssert(len(g) >= 2, "C12: a merge group with fewer than two files")
+		for _, c := range g {
+			used[int(c.filePointer[0])]++
+			total++
+		}
+	}
+	vpAssert(total <= b.config.MaxFilesToMergePerOperation, "C12: one Merge call removes more than MaxFilesToMergePerOperation files")
+	for i := range used {
+		vpAssert(used[i] <= 1, "C12: a file appears in two merge groups")
+	}
+}
